@@ -3648,6 +3648,20 @@ void space_text()
                           __func__, __LINE__, pc->Text(), next->Text());
                   pc->SetFlagBits(PCF_FORCE_SPACE);
                }
+               else if (  (  pc->Is(CT_NUMBER)
+                          || pc->Is(CT_NUMBER_FP))
+                       && (  pc->GetStr()[pc->Len() - 1] == 'e'
+                          || pc->GetStr()[pc->Len() - 1] == 'E'
+                          || pc->GetStr()[pc->Len() - 1] == 'p'
+                          || pc->GetStr()[pc->Len() - 1] == 'P')
+                       && (  next->GetStr()[0] == '+'
+                          || next->GetStr()[0] == '-'))
+               {
+                  // a number that ends in an exponent letter would absorb a following sign: '0x1e + 3'
+                  LOG_FMT(LSPACE, "%s(%d): would extend the number: pc->Text() '%s', next->Text() '%s'\n",
+                          __func__, __LINE__, pc->Text(), next->Text());
+                  pc->SetFlagBits(PCF_FORCE_SPACE);
+               }
                else if (  kw1
                        && kw2)
                {
